@@ -77,10 +77,14 @@ class LakeLock:
 def load_props():
     props = {}
     for path in sorted(glob.glob(os.path.join(ROOT, "props", "C*.py"))):
-        spec = importlib.util.spec_from_file_location(os.path.basename(path)[:-3], path)
-        mod = importlib.util.module_from_spec(spec)
-        spec.loader.exec_module(mod)
-        p = mod.PROP
+        try:
+            spec = importlib.util.spec_from_file_location(os.path.basename(path)[:-3], path)
+            mod = importlib.util.module_from_spec(spec)
+            spec.loader.exec_module(mod)
+            p = mod.PROP
+        except Exception as ex:  # a broken props file of one property must not take the others down
+            print(f"warning: cannot load {path}: {ex!r}", file=sys.stderr)
+            continue
         p["_module"] = mod
         props[p["id"]] = p
     return props
